@@ -177,7 +177,7 @@ def main(argv=None):
     results = []
     if tasks:
         ctx = mp.get_context("fork")
-        with ctx.Pool(min(a.jobs, max(1, len(tasks)))) as pool:
+        with ctx.Pool(min(a.jobs, max(1, len(tasks))), maxtasksperchild=1) as pool:
             for r in pool.imap_unordered(_task, tasks, chunksize=1):
                 results.append(r)
                 if a.verbose:
@@ -269,6 +269,56 @@ def main(argv=None):
             else:
                 undecided.append("%s: counter-model does not replay (engine divergence or the "
                                  "contract needs work): %s" % (oid, json.dumps(fl[0]["model"])[:300]))
+
+    # concrete sampling of every contract case on the real, uninstrumented code (every run): guards
+    # the engine (a discharged obligation with a concrete counterexample is an engine divergence),
+    # the contracts' concrete evaluation (used by replay), and adds a bounded check.  Never "proved".
+    conc_stats = {"cases": 0, "samples": 0, "accepted": 0, "failures": 0}
+    if results and not os.environ.get("VERIF_NO_SAMPLING"):
+        K = 25 if tier == "quick" else 400
+        bycontract = {}
+        for r in results:
+            bycontract.setdefault((r["module"], r["contract"]), []).append(r["case"])
+        jobs = []
+        for (m, cn), cases_ in bycontract.items():
+            step = max(1, (len(cases_) + 15) // 16)
+            for i in range(0, len(cases_), step):
+                jobs.append((m, cn, cases_[i:i + step], K, a.seed))
+        ctx = mp.get_context("fork")
+        with ctx.Pool(min(a.jobs, len(jobs))) as pool:
+            outs = pool.starmap(driver.batch_subprocess, jobs)
+        for (m, cn, cases_, _, _), b in zip(jobs, outs):
+            c = byname[cn][1]
+            if b.get("error"):
+                crashes.append("concrete sampling of %s: %s" % (c.name, b["error"][-600:]))
+                continue
+            for cr in b["batch"]:
+                conc_stats["cases"] += 1
+                conc_stats["samples"] += cr["samples"]
+                conc_stats["accepted"] += cr["accepted"]
+                for e in cr.get("errors", [])[:1]:
+                    crashes.append("concrete evaluation of %s[%s]: %s" % (c.name, case_id(cr["case"]), e))
+                for fl in cr["failures"][:1]:
+                    conc_stats["failures"] += 1
+                    for clause in fl["failed_clauses"][:2]:
+                        oid = ob_id(c.name, cr["case"], clause)
+                        if known_match(known, pid, oid):
+                            known_seen.append((oid, fl.get("call"), fl.get("outcome")))
+                            continue
+                        if any(v[0] == oid for v in violations):
+                            continue
+                        path = write_replay(pid, oid, {
+                            "property": pid, "obligation": oid, "function": c.func,
+                            "found_by": "concrete sampling of the contract on the real code"
+                                        + (" (the obligation was DISCHARGED symbolically: engine "
+                                           "divergence)" if obligations.get(oid) == "discharged" else ""),
+                            "failing_input": fl["values"], "replay_on_real_code": fl,
+                            "how_to_rerun": "cd /verif && echo '%s' | PYTHONPATH=/repo:/verif "
+                                            ".venv/bin/python -m pyvc.replay" % json.dumps({
+                                                "module": m, "contract": cn, "case": cr["case"],
+                                                "values": fl["values"]}),
+                        })
+                        violations.append((oid, path, False))
 
     # bounded fallback: code the symbolic engine could not execute (only ever on a changed tree: the
     # unchanged tree has no such case).  A concrete failing input is a violation; finding none
@@ -368,7 +418,8 @@ def main(argv=None):
 
     write_evidence(pid, tier, a.seed, cs, results, obligations, n_ob, n_dis, standin_results,
                    violations, known_seen, undecided, crashes, total_paths, total_queries,
-                   solver_time, models_replayed, wall, only=a.only, bounded_runs=bounded_runs)
+                   solver_time, models_replayed, wall, only=a.only, bounded_runs=bounded_runs,
+                   conc_stats=conc_stats)
     print("%s tier=%s obligations=%d discharged=%d paths=%d queries=%d solver=%.1fs standins=%s "
           "violations=%d known=%d undecided=%d wall=%.1fs" % (
               pid, tier, n_ob, n_dis, total_paths, total_queries, solver_time,
@@ -432,7 +483,7 @@ def scan_assumptions():
 
 def write_evidence(pid, tier, seed, cs, results, obligations, n_ob, n_dis, standin_results,
                    violations, known_seen, undecided, crashes, total_paths, total_queries,
-                   solver_time, models_replayed, wall, only=None, bounded_runs=()):
+                   solver_time, models_replayed, wall, only=None, bounded_runs=(), conc_stats=None):
     from pyvc import instrument
 
     import contracts
@@ -460,7 +511,10 @@ def write_evidence(pid, tier, seed, cs, results, obligations, n_ob, n_dis, stand
         "checker_cmd": "./check %s --tier %s  (pyvc: instrumented execution of /repo source, "
                        "z3 %s via z3-solver)" % (pid, tier, _z3v()),
         "trusted_base": trusted,
-        "explanation": contracts.EXPLANATION.get(pid, ""),
+        "explanation": contracts.EXPLANATION.get(pid) or (
+            "contract obligations on the real code discharged by z3 for all values of the symbolic "
+            "inputs (proof part) plus the listed stand-ins (bounded/exhaustive run-time evaluation "
+            "of assumed contracts, never counted as proved); see DESIGN.md"),
         "functions_under_contract": funcs,
         "contracts": sorted({c.name for (_, c) in cs}),
         "cases": len(results),
@@ -476,6 +530,7 @@ def write_evidence(pid, tier, seed, cs, results, obligations, n_ob, n_dis, stand
         "standins": [{k: v for k, v in s.items() if k not in ("failures", "samples")}
                      for s in standin_results],
         "bounded_fallback_runs": bounded_runs[:50],
+        "concrete_sampling": conc_stats,
         "standin_failures": sum(len(s.get("failures", [])) for s in standin_results),
         "evaluations": max(1, standin_eval + total_paths),
         "distinct_nontrivial": max(2, standin_distinct + n_ob),
